@@ -107,7 +107,13 @@ def workload_ops(w):
             for k in range(w['writes']):
                 ops.append(('set', (p, r), 'k%d' % (k % 2), 'P%dR%dW%d' % (p, r, k)))
             ops.append(('meta', (p, r), 'P%dR%dM' % (p, r)))
+            # a recording that is both aborted and saved (a discard on another thread racing with the recorder's own save): an abort
+            # only closes the caller-side recording, writes requested before it are still applied and the save still stores them
+            if w.get('abort') == 'before_save' and r == 0:
+                ops.append(('abort', (p, r)))
             ops.append(('save', (p, r)))
+            if w.get('abort') == 'after_save' and r == 0:
+                ops.append(('abort', (p, r)))
         out.append(ops)
     return out
 
@@ -122,6 +128,8 @@ def run_producer(cas, ops, recs, note=None):
             recs[op[1]].set_data(op[2], op[3])
         elif op[0] == 'meta':
             recs[op[1]].add_metadata({'m': op[2]})
+        elif op[0] == 'abort':
+            cas.abort_recording(recs[op[1]])
         else:
             cas.save_recording(recs[op[1]])
 
@@ -321,6 +329,8 @@ def stress(ctx, n):
     rng = ctx.rng
     for _ in range(n):
         w = {'producers': rng.randrange(1, 4), 'recordings': rng.randrange(1, 3), 'writes': rng.randrange(1, 4)}
+        if rng.random() < 0.3:
+            w['abort'] = rng.choice(['before_save', 'after_save'])
         fail_at = rng.choice([None, None, rng.randrange(1, 6)])
         store = make_spy_store(lambda: time.sleep(0) if rng.random() < 0.5 else None, fail_at=fail_at)
         cas = AsyncRecordOnlyTapeCassette(store, flush_interval=rng.choice([0.0001, 0.001, 0.01]), timeout_on_close=60)
@@ -420,6 +430,38 @@ def mutation_twin(ctx, n):
                                                                           'diff': first_diff(dx, dy)})
 
 
+def backlog(ctx, n):
+    """The wrapped storage stalls (slow disk, throttled bucket) while the service keeps recording: thousands of operations pile up;
+    the storage recovers and the wrapper is closed. Everything requested before close must still be applied exactly once, in order."""
+    from playback.tape_cassettes.asynchronous.async_record_only_tape_cassette import AsyncRecordOnlyTapeCassette
+    rng = ctx.rng
+    for i in range(n):
+        gate = threading.Event()
+        store = make_spy_store(lambda: gate.wait(60))
+        w = {'producers': rng.choice([1, 2]), 'recordings': rng.choice([6, 14]), 'writes': rng.choice([100, 250])}
+        cas = AsyncRecordOnlyTapeCassette(store, flush_interval=rng.choice([0.001, 0.02]), timeout_on_close=120)
+        cas.start()
+        recs = {}
+        t0 = time.time()
+        ths = [threading.Thread(target=run_producer, args=(cas, ops, recs)) for ops in workload_ops(w)]
+        for t in ths:
+            t.start()
+        for t in ths:
+            t.join(60)
+        stalled_producer = any(t.is_alive() for t in ths)
+        gate.set()
+        for t in ths:
+            t.join()
+        cas.close()
+        ctx.case(('backlog', i, tuple(sorted(w.items())), len(store.applied)), nontrivial=True)
+        ctx.count('backlog_runs')
+        ctx.maximum('max_operations_pending_when_the_storage_recovered', len(requested(w)))
+        wit = {'backlog': True, 'workload': w, 'fail_at': None}
+        if stalled_producer:
+            ctx.violation('a caller waited for the stalled wrapped storage', wit)
+        judge(ctx, w, store, None, [], getattr(store, 'closed_with', None), wit, None)
+
+
 def run(ctx):
     from playback.tape_cassettes.asynchronous.async_record_only_tape_cassette import AsyncRecordOnlyTapeCassette
     for a in ('_recording_loop', '_flush_recording', '_add_async_operation'):
@@ -442,6 +484,8 @@ def run(ctx):
                 ({'producers': 3, 'recordings': 2, 'writes': 3}, None, 0, 2, 8000, 5000)]
         for fail_at in range(1, 7):
             plan.append(({'producers': 2, 'recordings': 1, 'writes': 2}, fail_at, 1, 1, 1500, 20000))
+    plan.append(({'producers': 1, 'recordings': 1, 'writes': 2, 'abort': 'before_save'}, None, 1, 2, 100 if ctx.quick else 2000, 600 if ctx.quick else 20000))
+    plan.append(({'producers': 2, 'recordings': 1, 'writes': 1, 'abort': 'after_save'}, None, 1 if not ctx.quick else 0, 1, 100 if ctx.quick else 2000, 200 if ctx.quick else 20000))
     plan = [p + (None,) for p in plan]
     # timeout_on_close expiring (the join of the flusher is a timed wait whose timer may fire): exactly-once and order still hold
     plan.append(({'producers': 1, 'recordings': 1, 'writes': 2}, None, 1, 2, 150 if ctx.quick else 3000, 400 if ctx.quick else 20000, 5.0))
@@ -476,12 +520,14 @@ def run(ctx):
     if ctx.shard == 0:
         stress(ctx, 100 if ctx.quick else 2000)
     mutation_twin(ctx, ctx.budget(60, 3000))
+    if ctx.shard == 0:
+        backlog(ctx, 2 if ctx.quick else 12)
     if not ctx.counters.get('operations_checked'):
         ctx.inconclusive('no operation was checked')
 
 
 def replay(ctx, wit):
-    if wit.get('mutation_twin'):
+    if wit.get('mutation_twin') or wit.get('backlog'):
         print('real-thread witness, re-run the check')
         return
     if wit.get('stress'):
